@@ -98,11 +98,49 @@ func VC03_Structural() {
 	}
 }
 
-//verif: prop=C03 bounds="error constructors: nil error skipped, Error/NamedError deliver message under the key, Errors skips nil elements"
+type vVerboseErr3 struct{ msg string }
+
+func (e vVerboseErr3) Error() string { return e.msg }
+func (e vVerboseErr3) Format(s fmt.State, verb rune) {
+	if verb == 'v' && s.Flag('+') {
+		fmt.Fprint(s, e.msg+" (verbose)")
+		return
+	}
+	fmt.Fprint(s, e.msg)
+}
+
+type vGroupErr3 struct {
+	msg  string
+	errs []error
+}
+
+func (e vGroupErr3) Error() string   { return e.msg }
+func (e vGroupErr3) Errors() []error { return e.errs }
+
+type vPtrErr3 struct{ msg string }
+
+func (e *vPtrErr3) Error() string { return e.msg }
+
+//verif: prop=C03 bounds="error constructors: nil error skipped, Error/NamedError deliver message under the key, Errors skips nil elements; each element of Errors / Any([]error) (plain, verbose fmt.Formatter, grouped, typed-nil pointer) is delivered exactly as Error(element) delivers it"
 func VC03_Errors() {
 	r := &vRecEnc{}
 	msg := "e" + vrt.String("m", 1)
-	switch vrt.Choice("ctor", 5) {
+	switch vrt.Choice("ctor", 6) {
+	case 5:
+		// every element of Errors / Any([]error) is delivered exactly the way Error(element) delivers it,
+		// whatever the element's dynamic type: verbose (fmt.Formatter), grouped (Errors() []error),
+		// typed-nil pointer, plain
+		elems := []error{errors.New(msg), vVerboseErr3{msg}, vGroupErr3{msg, []error{errors.New("c1"), errors.New("c2")}}, (*vPtrErr3)(nil)}
+		e := elems[vrt.Choice("elem", len(elems))]
+		if vrt.Choice("via", 2) == 0 {
+			Errors("k", []error{e}).AddTo(r)
+		} else {
+			Any("k", []error{e}).AddTo(r)
+		}
+		el, ok := r.array("k")
+		want := &vRecEnc{}
+		Error(e).AddTo(want)
+		vrt.Assert("Errors-element-delivered-like-Error", ok && len(el) == 1 && vSameCalls(el[0].fields, want.calls))
 	case 0:
 		Error(nil).AddTo(r)
 		vrt.Assert("Error(nil)-skipped", len(r.calls) == 0)
